@@ -131,6 +131,27 @@ func (m *model) iter(prefix, start string) [][2]string {
 	return out
 }
 
+// heldIter is a set of iterators (one per backend) opened at the same moment, with what the
+// model held at that moment.
+type heldIter struct {
+	its  []ethdb.Iterator
+	want [][2]string
+	pos  int
+}
+
+// opRecorder records what a batch replays.
+type opRecorder struct{ ops []bop }
+
+func (r *opRecorder) Put(k, v []byte) error {
+	r.ops = append(r.ops, bop{false, string(k), append([]byte{}, v...)})
+	return nil
+}
+func (r *opRecorder) Delete(k []byte) error {
+	r.ops = append(r.ops, bop{true, string(k), nil})
+	return nil
+}
+func (r *opRecorder) Logger() *log.Logger { return logger }
+
 // ---- generators -----------------------------------------------------------------------------
 
 var keyParts = []string{"a", "ab", "abc", "b", "ba", "\x00", "\xff", "a\xff", "ut", "cl", "ab\x00", "abd"}
@@ -167,6 +188,7 @@ func TestC17_Lockstep(t *testing.T) {
 		m := &model{db: map[string][]byte{}}
 		var batches [4][2]ethdb.Batch
 		col := &collector{}
+		var held [2]*heldIter
 		fail := func(fp, msg string) {
 			stats.Violation(t, "lockstep", fp, msg, map[string]any{"history": col.hist})
 		}
@@ -438,9 +460,111 @@ func TestC17_Lockstep(t *testing.T) {
 					}
 				}
 			},
+			// an iterator shows the content as of its creation, whatever is written while it is held
+			"openIter": func(t *rapid.T) {
+				slot := rapid.IntRange(0, 1).Draw(t, "islot")
+				if held[slot] != nil {
+					t.Skip("iterator slot in use")
+				}
+				p, s := rapid.SampledFrom(prefixes).Draw(t, "prefix"), rapid.SampledFrom(starts).Draw(t, "start")
+				col.op("openIter", fmt.Sprintf("%d %q from %q", slot, p, s))
+				h := &heldIter{want: m.iter(ns+p, s)}
+				for _, b := range backends {
+					h.its = append(h.its, b.s.NewIterator([]byte(ns+p), []byte(s)))
+				}
+				held[slot] = h
+			},
+			"stepIter": func(t *rapid.T) {
+				var live []int
+				for i, h := range held {
+					if h != nil {
+						live = append(live, i)
+					}
+				}
+				if len(live) == 0 {
+					t.Skip("no held iterator")
+				}
+				slot := rapid.SampledFrom(live).Draw(t, "islot")
+				h := held[slot]
+				n := rapid.IntRange(1, 4).Draw(t, "nsteps")
+				col.op("stepIter", fmt.Sprintf("%d x%d (writes since it was opened: %d)", slot, n, len(col.hist)))
+				for k := 0; k < n; k++ {
+					for i, b := range backends {
+						ok := h.its[i].Next()
+						if h.pos >= len(h.want) {
+							if ok {
+								fail("C17/held-iter/"+b.name, fmt.Sprintf("iterator opened earlier yields %q=%x after the %d items that existed when it was opened", h.its[i].Key(), h.its[i].Value(), len(h.want)))
+							}
+							continue
+						}
+						if !ok {
+							fail("C17/held-iter/"+b.name, fmt.Sprintf("iterator opened earlier ends after %d of the %d items that existed when it was opened (error %v)", h.pos, len(h.want), h.its[i].Error()))
+							continue
+						}
+						if got := [2]string{string(h.its[i].Key()), string(h.its[i].Value())}; got != h.want[h.pos] {
+							fail("C17/held-iter/"+b.name, fmt.Sprintf("iterator opened earlier: item %d = %q, the database held %q when it was opened", h.pos, got, h.want[h.pos]))
+						}
+					}
+					if h.pos < len(h.want) {
+						h.pos++
+						if len(h.want) > 0 {
+							col.nt = true
+						}
+					}
+				}
+			},
+			"closeIter": func(t *rapid.T) {
+				slot := rapid.IntRange(0, 1).Draw(t, "islot")
+				if held[slot] == nil {
+					t.Skip("no held iterator")
+				}
+				col.op("closeIter", fmt.Sprint(slot))
+				for _, it := range held[slot].its {
+					it.Release()
+				}
+				held[slot] = nil
+			},
+			// a written batch still replays exactly the operations that were issued on it (the trie
+			// database does Write, Replay, Reset), whatever was written to the database since
+			"replayWritten": func(t *rapid.T) {
+				var ws []int
+				for i, b := range m.batches {
+					if b != nil && b.written {
+						ws = append(ws, i)
+					}
+				}
+				if len(ws) == 0 {
+					t.Skip("no written batch")
+				}
+				slot := rapid.SampledFrom(ws).Draw(t, "slot")
+				col.op("replayWritten", fmt.Sprint(slot))
+				for i, b := range backends {
+					rec := &opRecorder{}
+					if err := batches[i][slot].Replay(rec); err != nil {
+						fail("C17/replay-error/"+b.name, err.Error())
+					}
+					want := m.batches[slot].ops
+					if len(rec.ops) != len(want) {
+						fail("C17/replay-written/"+b.name, fmt.Sprintf("replay of a written batch yields %d operations, %d were issued", len(rec.ops), len(want)))
+						continue
+					}
+					for j := range want {
+						if rec.ops[j].del != want[j].del || rec.ops[j].k != want[j].k || !bytes.Equal(rec.ops[j].v, want[j].v) {
+							fail("C17/replay-written/"+b.name, fmt.Sprintf("replay of a written batch: operation %d is (del=%v %q=%x), issued was (del=%v %q=%x)", j, rec.ops[j].del, rec.ops[j].k, rec.ops[j].v, want[j].del, want[j].k, want[j].v))
+							break
+						}
+					}
+				}
+				if len(m.batches[slot].ops) > 0 {
+					col.nt = true
+				}
+			},
 			"reopen": func(t *rapid.T) {
 				if len(liveSlots(false)) > 0 {
 					t.Skip("batches alive")
+				}
+				if held[0] != nil || held[1] != nil {
+					t.Skip("iterators held")
 				}
 				if rapid.IntRange(0, 3).Draw(t, "gate") != 0 {
 					t.Skip("gated")
@@ -483,7 +607,24 @@ func TestC17_Lockstep(t *testing.T) {
 			"": func(t *rapid.T) {},
 		}
 		actions["bdel2"], actions["getPending2"], actions["bput2"] = actions["bdel"], actions["getPending"], actions["bput"]
+		defer func() {
+			for _, h := range held {
+				if h != nil {
+					for _, it := range h.its {
+						it.Release()
+					}
+				}
+			}
+		}()
 		t.Repeat(actions)
+		for i, h := range held {
+			if h != nil {
+				for _, it := range h.its {
+					it.Release()
+				}
+				held[i] = nil
+			}
+		}
 		// final full comparison
 		checkIter("", "")
 		for _, k := range keyParts {
